@@ -45,7 +45,7 @@ def _rvalue(rv, dl, dp):
     return rv
 
 
-def inline_calls(F, fn, pred, max_rounds=3, max_blocks=400):
+def inline_calls(F, fn, pred, max_rounds=3, max_blocks=400, allow_closures=False):
     """pred(callee_id, callee_fn, call_term) -> bool. Returns (new_fn, [inlined callee ids])."""
     fn = copy.deepcopy(fn)
     done = []
@@ -59,7 +59,10 @@ def inline_calls(F, fn, pred, max_rounds=3, max_blocks=400):
             w, r = mir.callee_of(t)
             cid = r or w
             cf = F.fns.get(cid)
-            if cf is None or cf.get("is_async") or cf["kind"] not in ("Fn", "AssocFn") or cid == fn["id"] or cid in done and done.count(cid) > 4:
+            is_clo = cf is not None and cf["kind"] == "Closure" and allow_closures
+            if cf is None or cf.get("is_async") or (cf["kind"] not in ("Fn", "AssocFn") and not is_clo) or cid == fn["id"] or cid in done and done.count(cid) > 64:
+                continue
+            if is_clo and (len(t["args"]) != 2 or t["args"][1].get("k") not in ("copy", "move") or t["args"][1]["p"]["p"]):
                 continue
             if len(cf["blocks"]) > max_blocks or not pred(cid, cf, t):
                 continue
@@ -129,8 +132,16 @@ def inline_calls(F, fn, pred, max_rounds=3, max_blocks=400):
             fn.setdefault("inlined", []).append({"callee": cid, "entry": db, "dest_local": t["dest"]["l"] if not t["dest"]["p"] else None,
                                                  "ret_local": dl, "sites": sites})
             # the call site: bind arguments, jump into the callee
-            for i, a in enumerate(t["args"]):
-                blk["stmts"].append({"k": "assign", "lhs": {"l": dl + 1 + i, "p": []}, "rv": {"k": "use", "o": a}, "line": t.get("line"), "exp": None})
+            if is_clo:
+                # closure call ABI: (environment, tuple of the arguments) - the body has the arguments spread over its locals 2..
+                blk["stmts"].append({"k": "assign", "lhs": {"l": dl + 1, "p": []}, "rv": {"k": "use", "o": t["args"][0]}, "line": t.get("line"), "exp": None})
+                for j in range(max(cf["arg_count"] - 1, 0)):
+                    blk["stmts"].append({"k": "assign", "lhs": {"l": dl + 2 + j, "p": []},
+                                         "rv": {"k": "use", "o": {"k": "copy", "p": {"l": t["args"][1]["p"]["l"], "p": [{"f": j, "n": None, "ty": "?"}]}}},
+                                         "line": t.get("line"), "exp": None})
+            else:
+                for i, a in enumerate(t["args"]):
+                    blk["stmts"].append({"k": "assign", "lhs": {"l": dl + 1 + i, "p": []}, "rv": {"k": "use", "o": a}, "line": t.get("line"), "exp": None})
             blk["term"] = {"k": "goto", "target": db, "file": t.get("file"), "line": t.get("line"), "exp": None}
             done.append(cid)
             changed = True
@@ -753,6 +764,18 @@ def desugar_changed_functions(F, recorded, crates):
             new["crate"] = f.get("crate")
             F.fns[fid] = new
             rep.append((fid, n))
+        # a local closure called by name (`let bump = |c| ..; bump(x)`) is a local helper: analysed in place
+        base = F.fns[fid]
+        mine = {c for c in F.fns if c.startswith(fid + "::{closure") and F.fns[c]["kind"] == "Closure"}
+        if mine:
+            CALLS = ("Fn::call", "FnMut::call_mut", "FnOnce::call_once")
+            n0 = len(base["locals"])
+            new2, done = inline_calls(F, base, lambda cid, cf, t: cid in mine and str(mir.callee_of(t)[0] or "").endswith(CALLS), allow_closures=True)
+            if done:
+                new2["crate"] = f.get("crate")
+                _propagate_consts(new2, n0)
+                F.fns[fid] = new2
+                rep.append((fid, len(done)))
     return rep
 
 
@@ -788,6 +811,44 @@ def _succ_ids(t):
     return out
 
 
+def _const_table(F, fn, defs, blocks, iter_arg):
+    """`TABLE.iter()` where TABLE is a constant whose initialiser is an array aggregate: (const body, array ops) or None.
+    iter_arg: the `&[T]` operand of <[T]>::iter - an unsized reference to a promoted that holds the constant"""
+    o, hops = iter_arg, 0
+    while hops < 8 and o.get("k") in ("copy", "move") and not [e for e in o["p"]["p"] if e != "*"]:
+        hops += 1
+        ds = defs.get(o["p"]["l"], [])
+        if len(ds) != 1 or ds[0] is None or ds[0]["lhs"]["p"]:
+            return None
+        rv = ds[0]["rv"]
+        if rv["k"] in ("use", "cast"):
+            o = rv["o"]
+        elif rv["k"] == "ref":
+            o = {"k": "copy", "p": rv["p"]}
+        else:
+            return None
+    cid = None
+    if o.get("k") == "const" and "promoted" in o:
+        pb = (fn.get("promoted") or [])[o["promoted"]] if o["promoted"] < len(fn.get("promoted") or []) else None
+        if pb:
+            for b in pb["blocks"]:
+                for st in b["stmts"]:
+                    if st["k"] == "assign" and st["rv"]["k"] == "use" and st["rv"]["o"].get("k") == "const" and st["rv"]["o"].get("def") in F.fns:
+                        cid = st["rv"]["o"]["def"]
+    elif o.get("k") == "const" and o.get("def") in F.fns:
+        cid = o["def"]
+    cb = F.fns.get(cid) if cid else None
+    if cb is None or cb["kind"] != "Static":
+        return None
+    live = [b for b in cb["blocks"] if not b["cleanup"]]
+    if len(live) != 1 or live[0]["term"]["k"] != "return":
+        return None
+    arr = [st for st in live[0]["stmts"] if st["k"] == "assign" and st["lhs"]["l"] == 0 and not st["lhs"]["p"]]
+    if len(arr) != 1 or arr[0]["rv"]["k"] != "agg" or arr[0]["rv"]["ak"] != "array":
+        return None
+    return cb, live[0]["stmts"], arr[0]["rv"]["ops"]
+
+
 def unroll_array_loops(F, fn, max_len=8, max_region=400):
     """returns (new fn or None, loops unrolled)"""
     cur, total = None, 0
@@ -804,18 +865,30 @@ def unroll_array_loops(F, fn, max_len=8, max_region=400):
                 defs.setdefault(t["dest"]["l"], []).append(None)
             elif t["k"] == "yield" and isinstance(t.get("resume_arg"), dict):
                 defs.setdefault(t["resume_arg"]["l"], []).append(None)
-        cand = None
+        cand, cand_table = None, None
         for bi, b in enumerate(blocks):
             t = b["term"]
             if t["k"] != "call" or b["cleanup"]:
                 continue
             w, r = mir.callee_of(t)
-            if not (w or "").endswith("into_iter") or "array" not in str(r) or not isinstance(t.get("target"), int):
+            if not (w or "").endswith("into_iter") or not isinstance(t.get("target"), int):
                 continue
             a0 = t["args"][0]
             if a0["k"] not in ("copy", "move") or a0["p"]["p"] or t["dest"]["p"]:
                 continue
-            elems = _array_elements(base, defs, a0["p"]["l"])
+            elems, table = None, None
+            if "array" in str(r):
+                elems = _array_elements(base, defs, a0["p"]["l"])
+            else:
+                # TABLE.iter() over a constant table: into_iter(<[T]>::iter(&TABLE))
+                ds_ = defs.get(a0["p"]["l"], [])
+                if len(ds_) == 1 and ds_[0] is None:
+                    for pb_ in blocks:
+                        pt_ = pb_["term"]
+                        if pt_["k"] == "call" and pt_["dest"] == {"l": a0["p"]["l"], "p": []} and (mir.callee_of(pt_)[0] or "").endswith("<impl [T]>::iter"):
+                            table = _const_table(F, base, defs, blocks, pt_["args"][0])
+                if table is not None:
+                    elems = table[2]
             if not elems or len(elems) > max_len:
                 continue
             # into_iter -> [ITER = move IT] -> goto H0 -> ... -> next(&mut ITER) -> switch discr(NX) [0 -> exit, 1 -> body]
@@ -825,7 +898,7 @@ def unroll_array_loops(F, fn, max_len=8, max_region=400):
                 chain.append(x)
                 if tb["k"] == "call":
                     w2, r2 = mir.callee_of(tb)
-                    if (w2 or "").endswith("Iterator::next") and "array::IntoIter" in str(r2):
+                    if (w2 or "").endswith("Iterator::next") and ("array::IntoIter" in str(r2) or (table is not None and "slice::Iter" in str(r2))):
                         nxt_blk = x
                     break
                 if tb["k"] in ("goto", "falseunwind") and isinstance(tb.get("target"), int):
@@ -845,6 +918,7 @@ def unroll_array_loops(F, fn, max_len=8, max_region=400):
             # loop header = the block the back edges go to: the first block of the chain that the body returns to
             nx_local = blocks[nxt_blk]["term"]["dest"]["l"]
             cand = (bi, chain, nxt_blk, sw, exit_b, body_b, nx_local, elems)
+            cand_table = table
             # region: reachable from body_b; header = first chain block reached again
             region, stack, header = set(), [body_b], None
             while stack:
@@ -880,6 +954,50 @@ def unroll_array_loops(F, fn, max_len=8, max_region=400):
             break
         if cur is None:
             cur = copy.deepcopy(fn)
+        if cand_table is not None:
+            # bring the constant's initialiser into the body (its locals renumbered) and hand out references to its elements
+            cb_, cstm_, cops_ = cand_table
+            dl_ = len(cur["locals"])
+            for l_ in cb_["locals"]:
+                cur["locals"].append(dict(l_, name=None))
+            dp_ = len(cur.get("promoted", []))
+            cur.setdefault("promoted", [])
+            cur["promoted"] += copy.deepcopy(cb_.get("promoted", []))
+
+            def shift(o_):
+                if isinstance(o_, dict) and o_.get("k") in ("copy", "move"):
+                    return dict(o_, p={"l": o_["p"]["l"] + dl_, "p": o_["p"]["p"]})
+                if isinstance(o_, dict) and "promoted" in o_:
+                    return dict(o_, promoted=o_["promoted"] + dp_)
+                return o_
+            tgt_blk = cur["blocks"][cand[0]]
+            for st_ in cstm_:
+                if st_["k"] != "assign":
+                    continue
+                s2_ = copy.deepcopy(st_)
+                s2_["lhs"] = {"l": st_["lhs"]["l"] + dl_, "p": st_["lhs"]["p"]}
+                rv_ = s2_["rv"]
+                if rv_["k"] in ("use", "cast", "repeat"):
+                    rv_["o"] = shift(rv_["o"])
+                elif rv_["k"] == "agg":
+                    rv_["ops"] = [shift(x_) for x_ in rv_["ops"]]
+                elif rv_["k"] in ("ref", "discr"):
+                    rv_["p"] = {"l": rv_["p"]["l"] + dl_, "p": rv_["p"]["p"]}
+                tgt_blk["stmts"].append(s2_)
+            refs_ = []
+            for x_ in cops_:
+                cur["locals"].append({"ty": "&?", "name": None})
+                rl_ = len(cur["locals"]) - 1
+                src_ = shift(x_)
+                if src_.get("k") in ("copy", "move"):
+                    tgt_blk["stmts"].append({"k": "assign", "lhs": {"l": rl_, "p": []}, "rv": {"k": "ref", "mut": False, "p": src_["p"]}, "line": None, "exp": None})
+                else:
+                    cur["locals"].append({"ty": "?", "name": None})
+                    tl_ = len(cur["locals"]) - 1
+                    tgt_blk["stmts"].append({"k": "assign", "lhs": {"l": tl_, "p": []}, "rv": {"k": "use", "o": src_}, "line": None, "exp": None})
+                    tgt_blk["stmts"].append({"k": "assign", "lhs": {"l": rl_, "p": []}, "rv": {"k": "ref", "mut": False, "p": {"l": tl_, "p": []}}, "line": None, "exp": None})
+                refs_.append({"k": "copy", "p": {"l": rl_, "p": []}})
+            cand = cand[:7] + (refs_,) + cand[8:]
         _unroll_one(cur, defs, *cand)
         total += 1
     return cur, total
